@@ -8,7 +8,7 @@
    simulators by the monitor P_C07 (harness/monitors.py) on every recorded trace. *)
 From Coq Require Import ZArith List Bool Arith.
 Import ListNotations.
-From MV Require Import Time.Spec Sched.Timing Sched.Inv Sched.Init Sched.Wle Sched.Main Sched.Guards Sched.Final Sched.Taint Static.Groups Static.Connect Static.Build Sched.Plane Sched.Link Sched.Certify.
+From MV Require Import Time.Spec Sched.Timing Sched.Inv Sched.Init Sched.Wle Sched.Main Sched.Guards Sched.Final Sched.Taint Static.Groups Static.Connect Static.Build Sched.Plane Sched.Link Sched.Certify Sched.GenView Gen.SchedulerFns Sched.SchedTie.
 Open Scope Z_scope.
 
 Theorem C07_partial_bounds : forall st s i t m s', apply st s (EvBegin i t m) = Ok s' ->
@@ -61,3 +61,11 @@ Proof.
   - exists [EvStart 0; EvStart 1; EvBegin 0 [0] 5; EvStep 0 (Some 1); EvData 0 0 [2%nat]]. eexists. split; [vm_compute; reflexivity|reflexivity].
   - vm_compute in Ex. injection Ex as <-. split; [vm_compute; left; reflexivity|]. eexists. vm_compute. reflexivity.
 Qed.
+
+(* tie to the source: get_max_advance as regenerated from mosaik/scheduler.py on every run (Gen/SchedulerFns.v, translator
+   harness/py2coq_sched.py) is the model's max_advance, on the view of the model state in which every triggering ancestor
+   shows its queue and its current step *)
+Theorem C07_generated_get_max_advance_is_the_model : forall st s i,
+  get_max_advance (view st s i) (nexts (s i)) (cur (s i)) (until st) = max_advance st s i.
+Proof. exact tie_get_max_advance. Qed.
+Print Assumptions C07_generated_get_max_advance_is_the_model.
